@@ -45,6 +45,10 @@ macro_rules! with_prop {
                 let $p = props::c08::C08;
                 $body
             }
+            "C09" => {
+                let $p = props::c09::C09;
+                $body
+            }
             other => {
                 eprintln!("harness error: unknown or unclaimed property {other}");
                 std::process::exit(2)
